@@ -211,12 +211,15 @@ class C04(Check):
         "T4": "override restart: y0 := last row | overrides (overrides win), _time_shift := last absolute time, then the "
               "integrator is re-initialised",
         "T5": "clear_results resets every result-group field initialised in __init__ and re-initialises the integrator",
+        "T8": "single writer of the result lists: self.variables and self.simulation_parameters are only ever stored / appended to by "
+              "__init__, clear_results and the result handler (which appends exactly one frame with its parameter record, T3); no other method "
+              "merges, trims or rewrites them, so every stored segment keeps the parameter record it was computed under",
         "T7": "caller-owned arrays: a public array argument that is shifted in place (+=, -=) is first converted with a copying "
               "constructor (np.array / .copy()); np.asarray / np.asanyarray / copy=False alias the caller's array, whose requested points "
               "would be altered for every later call",
         "T6": "refusal condition is `requested_end <= reached` in both continuation entry points",
     }
-    floors = {"T1": 5, "T2": 6, "T3": 3, "T4": 3, "T5": 4, "T6": 2, "T7": 2}
+    floors = {"T1": 5, "T2": 6, "T3": 3, "T4": 3, "T5": 4, "T6": 2, "T7": 2, "T8": 1}
     decided = [
         "the accumulated result is indexed by absolute time and every time comparison compares like with like",
         "a continuation is refused exactly when the requested end is not later than the time reached (in absolute time)",
@@ -241,6 +244,7 @@ class C04(Check):
         self.t5(mod)
         self.t6(mod)
         self.t7(mod)
+        self.t8(mod)
         self.t2("integrators/int_scipy.py", "Scipy", confirmed=True)
         self.t2_start("integrators/int_scipy.py", "Scipy")
 
@@ -465,6 +469,36 @@ class C04(Check):
         else:
             self.violated("T5", SIM, q, "reinitialise", clr, "clear_results does not re-initialise the integrator: the next run continues from the old t0/y0")
 
+    def t8(self, mod) -> None:
+        owners = {"__init__", "__post_init__", "clear_results", "_handle_simulation_results"}
+        lists = ("self.variables", "self.simulation_parameters")
+        foreign = []
+        n_w = 0
+        for name, fn in mod.methods(CLS).items():
+            for n in walk_no_nested(fn):
+                hit = None
+                if isinstance(n, (ast.Assign, ast.AugAssign, ast.AnnAssign, ast.Delete)):
+                    tg = n.targets if isinstance(n, (ast.Assign, ast.Delete)) else [n.target]
+                    for t in tg:
+                        for x in ast.walk(t):
+                            if isinstance(x, ast.Attribute) and norm(x) in lists:
+                                hit = n
+                elif isinstance(n, ast.Call) and isinstance(n.func, ast.Attribute) and norm(n.func.value) in lists \
+                        and n.func.attr in ("append", "extend", "insert", "pop", "clear", "remove", "sort", "reverse", "__setitem__", "__delitem__"):
+                    hit = n
+                if hit is not None:
+                    n_w += 1
+                    if name not in owners:
+                        foreign.append((name, hit))
+        if foreign:
+            name, hit = foreign[0]
+            self.violated("T8", SIM, f"{CLS}.{name}", "single-writer-of-result-lists", hit,
+                          f"`{norm(hit)[:80]}` rewrites the stored result outside the result handler: frames and parameter records can get out of step "
+                          "(merged, trimmed or re-parameterised segments)",
+                          witness="a two-step protocol: both steps end up in one frame paired with the last step's parameters - fluxes of step 1 are computed under step 2's values")
+        else:
+            self.holds("T8", SIM, CLS, "single-writer-of-result-lists", mod.cls(CLS), f"{n_w} stores into the result lists, all in {sorted(owners)}")
+
     def t7(self, mod) -> None:
         COPYING = ("np.array", "numpy.array", "np.copy", "list", "np.fromiter", "copy.deepcopy", "copy.copy")
         ALIASING = ("np.asarray", "np.asanyarray", "numpy.asarray", "np.ascontiguousarray")
@@ -566,6 +600,7 @@ class C04(Check):
             Variant("shift-from-first-row", SIM, f"{CLS}.update_variables", "float(self.variables[-1].index[-1])", "float(self.variables[-1].index[0])", expect="T4|"),
             Variant("no-reinit-after-override", SIM, f"{CLS}.update_variables",
                     "    self._time_shift = float(self.variables[-1].index[-1])\n    self._initialise_integrator()", "    self._time_shift = float(self.variables[-1].index[-1])", expect="T4|"),
+            Variant("protocol-merges-frames", SIM, f"{CLS}.simulate_protocol", "    return self", "    self.variables = [pd.concat(self.variables)] if self.variables else self.variables\n    return self", expect="T8|", count=0, quick=True),
             Variant("clear-forgets-shift", SIM, f"{CLS}.clear_results", "    self._time_shift = None\n", "", expect="T5|", quick=True),
             Variant("clear-forgets-errors", SIM, f"{CLS}.clear_results", "    self._errors = []\n", "", expect="T5|"),
             Variant("clear-no-reinit", SIM, f"{CLS}.clear_results", "    self._initialise_integrator()", "    pass", expect="T5|"),
